@@ -465,7 +465,7 @@ def s_bath(draw, tier):
             "queries": draw(st.lists(st.fixed_dictionaries({
                 "kind": st.sampled_from(["correlation", "correlation", "occupation"]),
                 "same_as_first": st.booleans(), "w1": st.sampled_from([0.9, 1.7, 2.5]), "w2": st.sampled_from([None, 0.9, 1.7]),
-                "k1": st.integers(1, 3), "k2": st.integers(3, 4), "dagg": st.sampled_from([[1, 0], [0, 1], [0, 0], [1, 1]]),
+                "k1": st.integers(1, 3), "k2": st.integers(3, 8), "dagg": st.sampled_from([[1, 0], [0, 1], [0, 0], [1, 1]]),
                 "dw": st.lists(st.sampled_from([1.0, 0.5, 2.0, 0.3]), min_size=2, max_size=2),
                 "ip": st.booleans(), "change_only": st.booleans()}), min_size=0, max_size=3))}
 
@@ -508,6 +508,11 @@ def run_bath(case):
     c = bd.correlation(w1, t1, freq_2=w2, time_2=t2, dagg=dg, progress_type="silent")
     out.check_close("bath/correlation", complex(c), complex(ex), 1e-7 * max(1.0, abs(ex)), f"dagg={dg}")
     first = dict(w1=w1, w2=w2, k1=case["k1"], k2=case["k2"], dagg=list(dg))
+    if case.get("queries") and case["queries"][0]["ip"]:
+        # half of the query histories start on a fresh object: its table of system correlations is then generated
+        # incrementally, in the order of the requested final times (the object above has generated the full table)
+        bd = oqupy.TwoTimeBathCorrelations(system, bath, pt, initial_state=rho0)
+        out.label("queries-on-fresh-object")
     for qi, q in enumerate(case.get("queries", [])):
         q = dict(q, **first) if q["same_as_first"] else dict(q, w2=q["w2"] or q["w1"])
         a1, a2 = q["w1"], q["w2"]
@@ -518,7 +523,7 @@ def run_bath(case):
             out.check_close("bath/occupation-query", occ, exact, 1e-7 * max(1.0, float(np.abs(exact).max())),
                             f"query {qi} on the same object (dw={q['dw'][0]}, change_only={q['change_only']})")
             continue
-        t1, t2 = q["k1"] * dt, q["k2"] * dt
+        t1, t2 = q["k1"] * dt, min(q["k2"], N) * dt          # times beyond the process tensor are invalid input
         dg = tuple(q["dagg"])
         same = 1.0 if a1 == a2 else 0.0
         g2 = q["dw"][0] * q["dw"][1] * math.sqrt(J(a1) * J(a2)) * O2
